@@ -279,7 +279,9 @@ func sameUpToInlineSpace(a, b string) bool {
 		}
 		// only the recorded shape: the differing line carries a comment or is a one-line func declaration, inside a
 		// run of adjacent lines (no empty line between) that holds both a comment and a one-line func declaration
-		isFunc := func(l string) bool { return strings.HasPrefix(l, "func ") && strings.Contains(l, "{") && strings.HasSuffix(strings.TrimSpace(strings.SplitN(l, "//", 2)[0]), "}") }
+		isFunc := func(l string) bool {
+			return strings.HasPrefix(l, "func ") && strings.Contains(l, "{") && strings.HasSuffix(strings.TrimSpace(strings.SplitN(l, "//", 2)[0]), "}")
+		}
 		hasComment := func(l string) bool { return strings.Contains(l, "//") || strings.Contains(l, "/*") }
 		if !isFunc(la[i]) && !hasComment(la[i]) {
 			return false
